@@ -5,31 +5,243 @@
 import YowsupVerif.Model.SendBuf
 namespace Yow.SendBuf
 
+/-! ### the invariant -/
+
+/-- the remaining operations of a thread that is outside a critical section: whole `sendData` / `handleWrite` programs -/
+inductive Prog : List Op → Prop
+  | nil : Prog []
+  | sd (d : List Nat) (rest : List Op) : Prog rest →
+      Prog (.acq :: .append d :: .read :: .send :: .cut :: .rel :: rest)
+  | hw (rest : List Op) : Prog rest → Prog (.acq :: .read :: .send :: .cut :: .rel :: rest)
+
+/-- the data a thread will still hand to `sendData` -/
+def pending : List Op → List Nat
+  | [] => []
+  | .append d :: r => d ++ pending r
+  | .acq :: r => pending r
+  | .rel :: r => pending r
+  | .read :: r => pending r
+  | .send :: r => pending r
+  | .cut :: r => pending r
+
+/-- the thread that holds the lock: where it is in its section, and what that says about the shared state -/
+inductive InSec (buf socket appended : List Nat) (t : Thread) : Prop
+  | app (d : List Nat) (rest : List Op) : t.ops = .append d :: .read :: .send :: .cut :: .rel :: rest → Prog rest →
+      buf = [] → socket = appended → InSec buf socket appended t
+  | read (rest : List Op) : t.ops = .read :: .send :: .cut :: .rel :: rest → Prog rest →
+      socket ++ buf = appended → InSec buf socket appended t
+  | send (rest : List Op) : t.ops = .send :: .cut :: .rel :: rest → Prog rest →
+      socket ++ buf = appended → t.snapshot = buf → InSec buf socket appended t
+  | cut (rest : List Op) : t.ops = .cut :: .rel :: rest → Prog rest →
+      socket = appended → t.sent = buf.length → InSec buf socket appended t
+  | rel (rest : List Op) : t.ops = .rel :: rest → Prog rest →
+      socket = appended → buf = [] → InSec buf socket appended t
+
+def Inv (total : List Nat) (s : St) : Prop :=
+  ∃ t0 t1, s.threads = [t0, t1] ∧ (s.appended ++ pending t0.ops = total ∧ pending t1.ops = []) ∧
+    ((s.lock = none ∧ Prog t0.ops ∧ Prog t1.ops ∧ s.buf = [] ∧ s.socket = s.appended) ∨
+     (s.lock = some 0 ∧ InSec s.buf s.socket s.appended t0 ∧ Prog t1.ops) ∨
+     (s.lock = some 1 ∧ Prog t0.ops ∧ InSec s.buf s.socket s.appended t1))
+
+local macro "sb_step" : tactic => `(tactic| (
+  simp [Inv, step, setThread]
+  refine ⟨_, _, ⟨rfl, rfl⟩, ?_⟩
+  simp_all [pending]))
+
+theorem prog_sendData (frames : List (List Nat)) : Prog (frames.flatMap (sendData { locked := true })) := by
+  induction frames with
+  | nil => exact .nil
+  | cons d fs ih => simpa [sendData, guarded] using Prog.sd d _ ih
+
+theorem pending_sendData (frames : List (List Nat)) :
+    pending (frames.flatMap (sendData { locked := true })) = frames.flatten := by
+  induction frames with
+  | nil => rfl
+  | cons d fs ih => simp [sendData, guarded, pending, ih]
+
+theorem prog_handleWrite (n : Nat) : Prog (List.replicate n (handleWrite { locked := true })).flatten := by
+  induction n with
+  | zero => exact .nil
+  | succ n ih => simpa [List.replicate_succ, handleWrite, guarded] using Prog.hw _ ih
+
+theorem pending_handleWrite (n : Nat) : pending (List.replicate n (handleWrite { locked := true })).flatten = [] := by
+  induction n with
+  | zero => rfl
+  | succ n ih =>
+    simp only [handleWrite, guarded] at ih ⊢
+    simp at ih
+    simp [List.replicate_succ, pending, ih]
+
+theorem inv_init (frames : List (List Nat)) (flushes : Nat) :
+    Inv frames.flatten (init { locked := true } frames flushes) := by
+  refine ⟨_, _, rfl, ?_, .inl ⟨rfl, prog_sendData _, prog_handleWrite _, rfl, rfl⟩⟩
+  simp [init, pending_sendData, pending_handleWrite]
+
+set_option linter.unusedSimpArgs false in
+set_option linter.unusedVariables false in
+theorem inv_step (total : List Nat) (s : St) (i : Nat) (h : Inv total s) : Inv total (step s i) := by
+  obtain ⟨threads, lock, buf, socket, appended⟩ := s
+  obtain ⟨t0, t1, hth, hp, h⟩ := h
+  simp only at hth hp h
+  subst hth
+  obtain ⟨o0, sn0, se0⟩ := t0
+  obtain ⟨o1, sn1, se1⟩ := t1
+  simp only at hp h
+  match i with
+  | 0 =>
+    rcases h with ⟨hl, p0, p1, hb, hs⟩ | ⟨hl, i0, p1⟩ | ⟨hl, p0, i1⟩
+    · subst hl hb hs
+      cases p0 with
+      | nil => exact ⟨_, _, rfl, hp, .inl ⟨rfl, .nil, p1, rfl, rfl⟩⟩
+      | sd d rest pr => sb_step; exact .app _ _ rfl pr rfl rfl
+      | hw rest pr => sb_step; exact .read _ rfl pr (by simp)
+    · subst hl
+      cases i0 with
+      | app d rest ho pr hb hs =>
+        simp only at ho; subst ho hb hs; sb_step; exact .read _ rfl pr (by simp)
+      | read rest ho pr hs =>
+        simp only at ho; subst ho hs; sb_step; exact .send _ rfl pr rfl rfl
+      | send rest ho pr hs hn =>
+        simp only at ho hn; subst ho hs hn; sb_step; exact .cut _ rfl pr rfl rfl
+      | cut rest ho pr hs hn =>
+        simp only at ho hn; subst ho hs hn; sb_step; exact .rel _ rfl pr rfl rfl
+      | rel rest ho pr hs hb =>
+        simp only at ho; subst ho hs hb; sb_step
+    · subst hl
+      cases p0 with
+      | nil => exact ⟨_, _, rfl, hp, .inr (.inr ⟨rfl, .nil, i1⟩)⟩
+      | sd d rest pr => sb_step; exact .sd _ _ pr
+      | hw rest pr => sb_step; exact .hw _ pr
+  | 1 =>
+    rcases h with ⟨hl, p0, p1, hb, hs⟩ | ⟨hl, p0, i1⟩ | ⟨hl, p1, i0⟩
+    · subst hl hb hs
+      cases p1 with
+      | nil => exact ⟨_, _, rfl, hp, .inl ⟨rfl, p0, .nil, rfl, rfl⟩⟩
+      | sd d rest pr => sb_step; exact .app _ _ rfl pr rfl rfl
+      | hw rest pr => sb_step; exact .read _ rfl pr (by simp)
+    · subst hl
+      cases i1 with
+      | nil => exact ⟨_, _, rfl, hp, .inr (.inl ⟨rfl, p0, .nil⟩)⟩
+      | sd d rest pr => sb_step; exact .sd _ _ pr
+      | hw rest pr => sb_step; exact .hw _ pr
+    · subst hl
+      cases i0 with
+      | app d rest ho pr hb hs =>
+        simp only at ho; subst ho hb hs; sb_step; exact .read _ rfl pr (by simp)
+      | read rest ho pr hs =>
+        simp only at ho; subst ho hs; sb_step; exact .send _ rfl pr rfl rfl
+      | send rest ho pr hs hn =>
+        simp only at ho hn; subst ho hs hn; sb_step; exact .cut _ rfl pr rfl rfl
+      | cut rest ho pr hs hn =>
+        simp only at ho hn; subst ho hs hn; sb_step; exact .rel _ rfl pr rfl rfl
+      | rel rest ho pr hs hb =>
+        simp only at ho; subst ho hs hb; sb_step
+  | i + 2 => exact ⟨_, _, rfl, hp, h⟩
+
+theorem inv_run (total : List Nat) (sched : List Nat) : ∀ s, Inv total s → Inv total (run s sched) := by
+  induction sched with
+  | nil => intro s h; exact h
+  | cons i is ih => intro s h; exact ih _ (inv_step total s i h)
+
+theorem inv_reach (frames : List (List Nat)) (flushes : Nat) (sched : List Nat) :
+    Inv frames.flatten (run (init { locked := true } frames flushes) sched) :=
+  inv_run _ sched _ (inv_init frames flushes)
+
+theorem InSec.split {buf socket appended : List Nat} {t : Thread} (h : InSec buf socket appended t) :
+    ∃ k, k ≤ buf.length ∧ socket ++ buf.drop k = appended := by
+  cases h with
+  | app d rest ho pr hb hs => exact ⟨0, by simp, by simp [hb, hs]⟩
+  | read rest ho pr hs => exact ⟨0, by simp, by simpa using hs⟩
+  | send rest ho pr hs hn => exact ⟨0, by simp, by simpa using hs⟩
+  | cut rest ho pr hs hn => exact ⟨buf.length, by simp, by simp [hs]⟩
+  | rel rest ho pr hs hb => exact ⟨0, by simp, by simp [hb, hs]⟩
+
+theorem InSec.ops_ne_nil {buf socket appended : List Nat} {t : Thread} (h : InSec buf socket appended t) :
+    t.ops ≠ [] := by
+  cases h <;> simp [*]
+
+theorem InSec.head {buf socket appended : List Nat} {t : Thread} (h : InSec buf socket appended t) :
+    ∃ op rest, t.ops = op :: rest ∧ op ≠ .acq := by
+  cases h with
+  | app d rest ho => exact ⟨_, _, ho, by simp⟩
+  | read rest ho => exact ⟨_, _, ho, by simp⟩
+  | send rest ho => exact ⟨_, _, ho, by simp⟩
+  | cut rest ho => exact ⟨_, _, ho, by simp⟩
+  | rel rest ho => exact ⟨_, _, ho, by simp⟩
+
+theorem Prog.head {ops : List Op} (h : Prog ops) (hne : ops ≠ []) : ∃ rest, ops = .acq :: rest := by
+  cases h with
+  | nil => exact absurd rfl hne
+  | sd d rest => exact ⟨_, rfl⟩
+  | hw rest => exact ⟨_, rfl⟩
+
+/-! ### the theorems -/
+
 /-- every byte handed to sendData is on the socket or still in the buffer, once, in order — at every moment; `k` is the part
     of the buffer that the thread inside a flush has already sent and not yet cut (0 otherwise) -/
 theorem socket_plus_buffer (frames : List (List Nat)) (flushes : Nat) (sched : List Nat) :
     let s := run (init { locked := true } frames flushes) sched
     ∃ k, k ≤ s.buf.length ∧ s.socket ++ s.buf.drop k = s.appended := by
-  sorry
+  intro s
+  obtain ⟨t0, t1, _, _, h⟩ := inv_reach frames flushes sched
+  rcases h with ⟨_, _, _, hb, hs⟩ | ⟨_, i0, _⟩ | ⟨_, _, i1⟩
+  · exact ⟨0, by simp, by simp [s, hb, hs]⟩
+  · exact i0.split
+  · exact i1.split
 
 /-- when both threads have finished (every sendData flushes itself): the socket carries exactly the frames, in order, once -/
 theorem finished_socket_exact (frames : List (List Nat)) (flushes : Nat) (sched : List Nat)
     (hf : finished (run (init { locked := true } frames flushes) sched) = true) :
     (run (init { locked := true } frames flushes) sched).socket = frames.flatten ∧
     (run (init { locked := true } frames flushes) sched).buf = [] := by
-  sorry
+  obtain ⟨t0, t1, hth, hp, h⟩ := inv_reach frames flushes sched
+  simp [finished, hth] at hf
+  obtain ⟨h0, h1⟩ := hf
+  rcases h with ⟨_, _, _, hb, hs⟩ | ⟨_, i0, _⟩ | ⟨_, _, i1⟩
+  · simp [h0, h1, pending] at hp
+    exact ⟨hs.trans hp, hb⟩
+  · exact absurd h0 i0.ops_ne_nil
+  · exact absurd h1 i1.ops_ne_nil
+
+theorem step_ne (s : St) (t0 t1 : Thread) (hth : s.threads = [t0, t1]) (i : Nat) (t : Thread) (op : Op) (rest : List Op)
+    (ht : s.threads[i]? = some t) (ho : t.ops = op :: rest) (hl : op = .acq → s.lock = none) : step s i ≠ s := by
+  intro h
+  have h2 : (step s i).threads[i]? = some t := by rw [h, ht]
+  obtain ⟨threads, lock, buf, socket, appended⟩ := s
+  obtain ⟨o, sn, se⟩ := t
+  simp only at hth ho; subst hth ho
+  match i with
+  | 0 => 
+    simp at ht; subst ht
+    cases op <;> simp_all [step, setThread]
+  | 1 => 
+    simp at ht; subst ht
+    cases op <;> simp_all [step, setThread]
+  | i + 2 => simp at ht
 
 /-- no deadlock -/
 theorem progress (frames : List (List Nat)) (flushes : Nat) (sched : List Nat)
     (hf : finished (run (init { locked := true } frames flushes) sched) = false) :
     ∃ i, step (run (init { locked := true } frames flushes) sched) i ≠ run (init { locked := true } frames flushes) sched := by
-  sorry
+  obtain ⟨t0, t1, hth, hp, h⟩ := inv_reach frames flushes sched
+  rcases h with ⟨hl, p0, p1, _, _⟩ | ⟨_, i0, _⟩ | ⟨_, _, i1⟩
+  · by_cases h0 : t0.ops = []
+    · have h1 : t1.ops ≠ [] := by
+        intro h1; simp [finished, hth, h0, h1] at hf
+      obtain ⟨rest, ho⟩ := p1.head h1
+      exact ⟨1, step_ne _ t0 t1 hth 1 t1 _ rest (by simp [hth]) ho (fun _ => hl)⟩
+    · obtain ⟨rest, ho⟩ := p0.head h0
+      exact ⟨0, step_ne _ t0 t1 hth 0 t0 _ rest (by simp [hth]) ho (fun _ => hl)⟩
+  · obtain ⟨op, rest, ho, hn⟩ := i0.head
+    exact ⟨0, step_ne _ t0 t1 hth 0 t0 op rest (by simp [hth]) ho (fun h => absurd h hn)⟩
+  · obtain ⟨op, rest, ho, hn⟩ := i1.head
+    exact ⟨1, step_ne _ t0 t1 hth 1 t1 op rest (by simp [hth]) ho (fun h => absurd h hn)⟩
 
 /-- without the lock the loop thread and a sender can both send the same bytes (and the second cut then drops bytes that
     were never sent) -/
 theorem unlocked_duplicates :
     ∃ sched, let s := run (init { locked := false } [[1, 2, 3], [4, 5]] 1) sched
-      finished s = true ∧ s.socket ≠ [1, 2, 3, 4, 5] := by
-  sorry
+      finished s = true ∧ s.socket ≠ [1, 2, 3, 4, 5] :=
+  ⟨[0, 0, 1, 0, 1, 1, 0, 0, 0, 0, 0], by decide⟩
 
 end Yow.SendBuf
